@@ -650,7 +650,7 @@ def fn_edge_tree(case, ctx):
 # -------------------------------------------------------------------------------------------- sub-check: MST
 
 @contextlib.contextmanager
-def memory_cap(extra=2 << 30):
+def memory_cap(extra=3 << 30):
     """Soft address-space limit (current size + extra) while a library call runs: if Kruskal ever hands a cyclic edge set to the
     orientation loop, that loop appends to its queue forever; a MemoryError (reported as a violation) is better than an
     OOM-killed worker, which would hang the process pool.  Restored afterwards."""
@@ -985,11 +985,13 @@ def self_test():
 
 
 SUBCHECKS = [
-    SubCheck("edge_tree", edge_tree_case(), fn_edge_tree, quick=800, thorough=2500),
-    SubCheck("edge_mst", mst_case(), fn_mst, quick=800, thorough=2500),
-    SubCheck("face_tree", face_tree_case(), fn_face_tree, quick=600, thorough=2000),
-    SubCheck("cell_tree", cell_tree_case(), fn_cell_tree, quick=400, thorough=1500),
-    SubCheck("forests", forest_case(), fn_forest, quick=600, thorough=2000),
+    SubCheck("edge_tree", edge_tree_case(), fn_edge_tree, quick=1500, thorough=2500),
+    # short watchdog: a normal case takes milliseconds; if the orientation loop of the MST ever runs on a cyclic edge set it grows its
+    # queue without bound (up to ~0.7 GB/s), so it must be stopped long before 8-16 workers exhaust the machine (see memory_cap)
+    SubCheck("edge_mst", mst_case(), fn_mst, quick=1500, thorough=2500, watchdog=(3, 5)),
+    SubCheck("face_tree", face_tree_case(), fn_face_tree, quick=1100, thorough=2000),
+    SubCheck("cell_tree", cell_tree_case(), fn_cell_tree, quick=700, thorough=1500),
+    SubCheck("forests", forest_case(), fn_forest, quick=1100, thorough=2000),
 ]
 
 def kf_mst_dense_attribute(case, violation):
